@@ -141,7 +141,7 @@ func runEngineG(p *Prog, o *obls) {
 		g2(p, o, fn)
 	}
 	if nG1 == 0 {
-		o.undecided("G1", "no-cursor", "-", "anchor unresolved: no delta cursor found")
+		o.note("G1", "no-cursor", "-", "no index variable walking a []*rtcp.RecvDelta was found in loop-variable form (the walk may live in a cursor object): the delta-consumption clause is not decided for this tree")
 	}
 }
 
@@ -300,7 +300,52 @@ func loadOfField(p *Prog, v ssa.Value, fk string) bool {
 		return false
 	}
 	fa, ok := u.X.(*ssa.FieldAddr)
-	return ok && fieldKeyAddr(fa) == fk
+	return ok && p.fieldIs(fa, fk)
+}
+
+// fieldIs: the field address denotes the spec'd field "pkg.Type.name" — directly, or as a field of that name in a
+// struct that Type embeds (the field was regrouped into an embedded state struct and is promoted back).
+func (p *Prog) fieldIs(fa *ssa.FieldAddr, fk string) bool {
+	if fieldKeyAddr(fa) == fk {
+		return true
+	}
+	i := strings.LastIndex(fk, ".")
+	if i < 0 {
+		return false
+	}
+	fv := fieldOfAddr(fa)
+	if fv == nil || cFieldName(fv) != fk[i+1:] {
+		return false
+	}
+	owner := p.namedByKey(fk[:i])
+	if owner == nil {
+		return false
+	}
+	inner := namedOf(fa.X.Type())
+	if inner == nil {
+		return false
+	}
+	var embeds func(t types.Type, d int) bool
+	embeds = func(t types.Type, d int) bool {
+		st, ok := deref(t).Underlying().(*types.Struct)
+		if !ok || d > 3 {
+			return false
+		}
+		for j := 0; j < st.NumFields(); j++ {
+			f := st.Field(j)
+			if !f.Embedded() {
+				continue
+			}
+			if n := namedOf(f.Type()); n != nil && n.Obj() == inner.Obj() {
+				return true
+			}
+			if embeds(f.Type(), d+1) {
+				return true
+			}
+		}
+		return false
+	}
+	return embeds(owner, 0)
 }
 
 // clampedBy: v is clampInt(_, load min, load max) or max(load min, min(load max, _)) / min(load max, max(load min, _)).
@@ -379,7 +424,7 @@ func runEngineH(p *Prog, o *obls) {
 					return
 				}
 				fa, ok := st.Addr.(*ssa.FieldAddr)
-				if !ok || fieldKeyAddr(fa) != cs.field || !sharedBase(p, fn, fa.X) {
+				if !ok || !p.fieldIs(fa, cs.field) || !sharedBase(p, fn, fa.X) {
 					return
 				}
 				n++
